@@ -735,7 +735,13 @@ def switch_enum(body, bb):
     if p is None or p["p"]:
         return None
     ds = body.defs().get(p["l"], [])
-    ds = [d for d in ds if d.si is not None and d.node["k"] == "assign" and d.node["rv"]["k"] == "discr"]
+    if any(not (d.si is not None and d.node["k"] == "assign" and d.node["rv"]["k"] == "discr") for d in ds):
+        return None
+    if len(ds) > 1:
+        # a block duplicated by jump threading shares its locals with the copy: the definition that counts is the one
+        # in the switching block itself (every definition is a discriminant read, the last one in this block wins)
+        here = [d for d in ds if d.bb == bb]
+        ds = here[-1:] if here else []
     if len(ds) != 1 or "enum" not in ds[0].node["rv"]:
         return None
     rv = ds[0].node["rv"]
